@@ -153,6 +153,7 @@ func runOne(e *Engine, t *tape.Tape, tier string) *core.Run {
 		guardedBody(func() { e.Run(run) })
 	}()
 	start := time.Now()
+	lastBlocked, sameProbes := "", 0
 	timer := time.NewTimer(hangProbe)
 	defer timer.Stop()
 	for {
@@ -163,7 +164,24 @@ func runOne(e *Engine, t *tape.Tape, tier string) *core.Run {
 			}
 			return run
 		case <-timer.C:
-			if fn, stack, ok := hungInDst(); ok {
+			fn, stack, ok := hungInDst()
+			// A goroutine can sit in a wait state for a moment (a contended runtime semaphore during
+			// GC, a FileSet lock): only a goroutine found blocked with the very same stack in three
+			// consecutive probes, five seconds apart, is considered blocked for good.
+			body := stack
+			if i := strings.Index(body, "\n"); i >= 0 {
+				body = body[i:] // drop the header: its "N minutes" changes
+			}
+			if ok && body == lastBlocked {
+				sameProbes++
+			} else {
+				sameProbes = 0
+			}
+			lastBlocked = ""
+			if ok {
+				lastBlocked = body
+			}
+			if ok && sameProbes >= 2 {
 				// the blocked goroutine is abandoned; its Run value is not read again
 				hr := core.NewRun(e.Prop, t, tier)
 				hr.Describe("the run never returned: its goroutine is blocked forever inside dst (nothing else runs that could wake it)")
